@@ -217,7 +217,9 @@ struct Run : ContBase {
         for (size_t i = 0; i < U; i++) universe.push_back(gen_key());
         c.op("hashtbl(range=%zu, universe=%zu)", range, U);
         vf_ledger_on = 1;
-        t = qhashtbl(range, 0);
+        int hopt = s.chance(1, 4) ? QHASHTBL_THREADSAFE : 0;   // a thread-safe table used by one thread behaves like a plain one
+        if (hopt) c.tag("threadsafe_option_single_thread");
+        t = qhashtbl(range, hopt);
         if (!t) c.fail(FUNC, "hashtbl:ctor", "qhashtbl(%zu,0) returned NULL", range);
         int maxops = c.tier ? 3000 : 500, ops = 0;
         while (!s.exhausted() && ops++ < maxops) {
